@@ -29,7 +29,7 @@ var osFileMethodsAllowedInLib = map[string][]string{
 	"Close":    nil, // anywhere (C13 constrains it)
 	"Stat":     nil,
 	"Fd":       nil,
-	"Sync":     {"(*whispertool.Whisper).Sync"},
+	"Sync":     {"whispertool.Whisper.Sync"},
 	"Truncate": {"whispertool.Create"},
 }
 
@@ -182,7 +182,7 @@ func rulesC05Lib(w *World, r *Report) {
 				pp := p.Pkg.Path()
 				key := "call:" + pp + "." + sc.Name() + "@" + funcName(f)
 				if m := fileMutatingFuncs[pp]; m != nil && m[sc.Name()] {
-					if pp == "os" && sc.Name() == "OpenFile" && funcName(f) == "(*whispertool.Whisper).openAndLockFile" {
+					if pp == "os" && sc.Name() == "OpenFile" && funcName(f) == "whispertool.Whisper.openAndLockFile" {
 						r.OK("C05.R3", key, w.instrPos(c), "the one descriptor of a handle is opened here")
 					} else {
 						r.Violate("C05.R3", key, w.instrPos(c), "package whispertool calls "+pp+"."+sc.Name()+": a second way to create/modify files besides the handle's page buffer")
@@ -197,7 +197,7 @@ func rulesC05Lib(w *World, r *Report) {
 			}
 		}
 	}
-	allowedWriters := map[string]bool{"(*whispertool.Whisper).putPointAt": true, "(*whispertool.Whisper).putHeader": true}
+	allowedWriters := map[string]bool{"whispertool.Whisper.putPointAt": true, "whispertool.Whisper.putHeader": true}
 	nW := 0
 	for _, e := range w.callers(writeAt) {
 		c := e.Caller.Func
@@ -302,7 +302,7 @@ func rulesC05Lib(w *World, r *Report) {
 			r.Check(okSize, "C05.R5", "Open:size-stat", w.instrPos(onews[0].call), "the page buffer is sized by Stat().Size() of the opened file", "the page buffer of Open is not sized by the file's actual size (w.file.Stat().Size()): a Sync can then write beyond or short of the file's length")
 		}
 	}
-	hdrWriters := map[string]bool{"whispertool.Create": true, "(*whispertool.Whisper).readHeader": true}
+	hdrWriters := map[string]bool{"whispertool.Create": true, "whispertool.Whisper.readHeader": true}
 	nStores := 0
 	for _, f := range libFuncs(w) {
 		eachInstr(f, func(in ssa.Instruction) {
